@@ -25,7 +25,7 @@ func NewRemoteHTTPIndexStore(location *url.URL, opt StoreOptions) (*RemoteHTTPIn
 // GetIndexReader returns an index reader from an HTTP store. Fails if the specified index
 // file does not exist.
 func (r RemoteHTTPIndex) GetIndexReader(name string) (rdr io.ReadCloser, e error) {
-	b, err := r.GetObject(name)
+	b, err := r.GetObject(indexObjectName(name))
 	if err != nil {
 		return rdr, err
 	}
@@ -55,5 +55,14 @@ func (r *RemoteHTTPIndex) StoreIndex(name string, idx Index) error {
 		return rdr
 	}
 
-	return r.StoreObject(name, getReader)
+	return r.StoreObject(indexObjectName(name), getReader)
+}
+
+// indexObjectName turns the name of an index into the reference that is resolved
+// against the location of the store. The name is one path element: escaped, a
+// '%2F' or '%2e%2e' in it (as the index server, which has decoded the request
+// path once already, can pass on) stays part of the name instead of being
+// decoded a second time, into a '/' or '..' that leads out of the location.
+func indexObjectName(name string) string {
+	return "./" + url.PathEscape(name)
 }
